@@ -141,6 +141,12 @@ func checkC08(r *core.Run) {
 	r.Rule("CAP-mint: bank.MintCoins only from node.BeginBlock; bank.BurnCoins from no entry point")
 	r.Rule("G-mint: MintCoins <= !TotalPledged.IsZero AND !BlockReward.IsZero AND !rewardCoin.IsZero; TotalReward.Add <= mint err == nil, with the minted coin value; baseline replacement <= reward.LT(rewardCoin.Amount)")
 	r.Rule("T-settle: store to Pledge.TotalStorage preceded on every path by the settlement store to Reward.Amount (or the TotalStorage > 0 false edge) and followed, before SetPledge, by the RewardDebt.Amount store")
+	r.Rule("T-couple(pool): Pool.TotalStorage moves with Pledge.TotalStorage by the same term in AddVstorage/RemoveVstorage (sum of provider shares = pool total, so rate x share sums to what was minted)")
+	for _, h := range []string{"node/keeper.msgServer.AddVstorage", "node/keeper.msgServer.RemoveVstorage"} {
+		coupleSame(r, "T-couple", h, "node/types.Pledge.TotalStorage", "node/types.Pool.TotalStorage", false)
+	}
+	r.Rule("E6-all(export-unmodified, node): ExportGenesis of x/node does not rewrite pledge/pool records after reading them (a reward exported with the pending share added, while the debt snapshot stays, is claimable twice after import)")
+	ruleExportUnmodified(r, "E6-all", "node")
 	r.Rule("T-claim: Pledge.Reward := remainder of TruncateDecimal; amount paid is the truncated part")
 	r.Assume(aDeps)
 	r.Assume(aCG)
